@@ -30,11 +30,11 @@ def _last_eq(ghost, var, n):
 
 MD5_LOOPS = [
     {"function": "_crypt_crypt_md5crypt_rn", "anchor": "for (cnt = phr_size; cnt > 16; cnt -= 16)",
-     "invariant": "cnt <= phr_size && xv_md5_state == 1 && xv_md5_ctx == scratch && xv_phrase_absorbed >= 3 && xv_salt_absorbed >= 2", "decreases": "cnt"},
+     "invariant": "cnt <= phr_size && xv_md5_state == 1 && xv_md5_ctx == scratch && xv_phrase_absorbed >= 3 && (!xv_salt_span_set || xv_salt_absorbed >= 2)", "decreases": "cnt"},
     {"function": "_crypt_crypt_md5crypt_rn", "anchor": "for (cnt = phr_size; cnt > 0; cnt >>= 1)",
-     "invariant": "cnt <= phr_size && xv_md5_state == 1 && xv_md5_ctx == scratch && xv_phrase_absorbed >= 3 && xv_salt_absorbed >= 2", "decreases": "cnt"},
+     "invariant": "cnt <= phr_size && xv_md5_state == 1 && xv_md5_ctx == scratch && xv_phrase_absorbed >= 3 && (!xv_salt_span_set || xv_salt_absorbed >= 2)", "decreases": "cnt"},
     {"function": "_crypt_crypt_md5crypt_rn", "anchor": "for (cnt = 0; cnt < 1000; ++cnt)",
-     "invariant": "cnt <= 1000 && xv_md5_state == 0 && xv_md5_ctx == scratch && xv_phrase_absorbed >= 3 && xv_salt_absorbed >= 2 && "
+     "invariant": "cnt <= 1000 && xv_md5_state == 0 && xv_md5_ctx == scratch && xv_phrase_absorbed >= 3 && (!xv_salt_span_set || xv_salt_absorbed >= 2) && "
                   + _last_eq("xv_md5_last", "result", 16), "decreases": "1000 - cnt"},
 ]
 
@@ -116,3 +116,20 @@ JOBS += [_method("bsdicrypt", "M_bsdicrypt", [], ["crypt_bsdicrypt_rn", "des_gen
          # unbounded for(;;) key-folding loop unwound over an exact-size phrase object
          _method("bsdicrypt", "M_bsdicrypt", [], ["crypt_bsdicrypt_rn", "des_gen_hash", "ascii_to_bin"], weak=True,
                  extra=dict(DES_EXTRA, wip=True))]
+
+# crypt_yescrypt_rn: the $y$/$7$ wrapper with the yescrypt core replaced by assumed contracts
+JOBS += [{"name": "yescrypt_wrapper", "props": ["C04", "C05", "C06", "C15", "C19"],
+          "functions": ["crypt_yescrypt_rn"],
+          "harness": "harness/yescrypt_wrap.c", "verif_src": ["models/strings.c"], "defs": ["XV_STR_SCAN=385", "XV_STRCPY_MAX=384"],
+          "unwind": 10, "bounds": {"SPAN": 64, "STR": 385, "SPANEXACT": 24, "STRCPY": 384}, "mem_gb": 4, "timeout": 600,
+          "no_native": True, "wip": True,
+          "bound": "strlen (setting) < 512",
+          "assumptions": ["assumed (not enforced) contracts of yescrypt_init_local, yescrypt_r, yescrypt_free_local: see harness/yescrypt_wrap.c"]}]
+
+SHA1_LOOPS = [
+    {"function": "_crypt_crypt_sha1crypt_rn", "anchor": "for (i = 1; i < iterations; ++i)",
+     "invariant": "i >= 1 && (i <= iterations || i == 1) && xv_hmac_calls >= 1", "decreases": "iterations - i"},
+]
+SHA1_EXTRA = {"late_src": ["models/snprintf.c"], "timeout": 1200, "mem_gb": 10, "unwind": 10, "wip": True}
+JOBS += [_method("sha1crypt", "M_sha1crypt", SHA1_LOOPS, ["crypt_sha1crypt_rn", "to64"], extra=dict(SHA1_EXTRA)),
+         _method("sha1crypt", "M_sha1crypt", SHA1_LOOPS, ["crypt_sha1crypt_rn", "to64"], weak=True, extra=dict(SHA1_EXTRA))]
